@@ -48,12 +48,14 @@ def plan(tier, seed):
             elif f == "circshift":
                 k = int(rng.integers(1, nd + 1))
                 ax = sorted(rng.choice(nd, size=k, replace=False).tolist())
-                style = pick(rng, ["none", "pos", "neg"])
+                style = pick(rng, ["none", "pos", "neg", "mixed"])
                 if style == "none":
                     c["axes"] = None
                     k = nd
                 else:
-                    c["axes"] = [int(a - nd) if style == "neg" else int(a) for a in ax]
+                    ax = [int(a) for a in rng.permutation(ax)]       # any order, not sorted
+                    c["axes"] = [int(a - nd) if (style == "neg" or (style == "mixed" and
+                                 rng.random() < 0.5)) else int(a) for a in ax]
                 c["shift"] = [int(rng.integers(-2 * lim, 2 * lim + 1)) for _ in range(k)]
             elif f == "flip":
                 k = int(rng.integers(1, nd + 1))
@@ -209,7 +211,9 @@ def run_case(case):
                 op = L.Circshift(shape, case["shift"], axes=case["axes"])
                 got = op(x)
             cls = "none" if case["axes"] is None else (
-                "neg" if any(a < 0 for a in case["axes"]) else "pos") + str(len(shape))
+                "neg" if any(a < 0 for a in case["axes"]) else "pos") + str(len(shape)) + (
+                "u" if [a % len(shape) for a in case["axes"]] != sorted(
+                    a % len(shape) for a in case["axes"]) else "s")
         elif f == "flip":
             x = label(shape, cplx)
             ref = ref_flip(x, case["axes"])
